@@ -865,6 +865,88 @@ def run(ctx):
                 violations.append(("kepler:edge_zero_step_changes_state", rep, "%s: %d steps of dt = %r changed the state" % (tag, c["n"], dt_e)))
     ctx.extra["degenerate_simulation_cases"] = edge_hist
 
+    # ---------------- 3e. history vs fresh: an object with a history must continue exactly like a FRESH object holding the
+    # same particles, time and settings (documented protocol respected).  WH-type integrators have no legitimate memory
+    # of the past (warn-once counters, p_jh allocated for another N, stale gravity / ignore flags, cached coordinates ...):
+    # the particle states after each of 2 further steps must agree bit for bit, the times within 2 ulp.
+    nhvf = ctx.scale(140, 1500)
+    hvf_cases = []
+    hvf_cfgs = [("whfast", c_) for c_ in ("jacobi", "whds", "democraticheliocentric", "barycentric")] + \
+               [("saba", None), ("mercurius", None), ("trace", None)]
+    for k in range(nhvf):
+        integ, coord = hvf_cfgs[k % len(hvf_cfgs)]
+        while True:
+            meta, p, mu, dt = gen_case(rng, hyp=(rng.random() < 0.3), max_rev=0.05, min_rev=1e-4, emax_ell=0.9)
+            if meta["e"] < 1 or meta["e"] > 1.1:
+                break
+        G = 1.0 if rng.random() < 0.5 else 10 ** rng.uniform(-3, 3)
+        q = rng.choice([0.0, 10 ** rng.uniform(-9, -2)])
+        m0 = mu / G; m1 = m0 * q
+        f0 = -m1 / (m0 + m1); f1 = m0 / (m0 + m1)
+        P_like = 2 * math.pi * math.sqrt(meta["a"] ** 3 / mu)
+        hdt = math.copysign(min(abs(dt), 0.002 * P_like), dt)
+        hist = gen_history(rng, hdt, m0)
+        for _ in range(rng.randint(1, 2)):
+            u = rng.random()
+            if u < 0.2:
+                hist.append({"op": "flip_dt_steps", "integrator": rng.choice(["whfast", "saba", "mercurius"]), "n": rng.randint(1, 2),
+                             "dt": hdt.hex(), "safe_mode": rng.choice([0, 1])})
+            elif u < 0.4:
+                hist.append({"op": "change_central_mass", "integrator": rng.choice(["whfast", "mercurius", "trace"]),
+                             "factor": rng.uniform(0.5, 2.0), "n": rng.randint(1, 2), "dt": hdt.hex(), "safe_mode": rng.choice([0, 1])})
+            elif u < 0.6:
+                hist.append({"op": "replace_planet", "integrator": rng.choice(["whfast", "mercurius", "trace", "saba"]),
+                             "sx": rng.uniform(0.9, 1.1), "sv": rng.uniform(0.9, 1.1), "n": rng.randint(1, 2), "dt": hdt.hex(),
+                             "safe_mode": rng.choice([0, 1])})
+            elif u < 0.7:
+                hist.append({"op": "copy"})
+            elif u < 0.8:
+                hist.append({"op": "save_load"})
+            else:       # a step longer than the period: the timestep warning has been raised once on this object
+                hist.append({"op": "steps", "integrator": "whfast", "n": 1, "dt": math.copysign(3.0 * P_like, dt).hex(),
+                             "coordinates": rng.choice(["jacobi", "democraticheliocentric", "whds", "barycentric"]),
+                             "kernel": "default", "safe_mode": rng.choice([0, 1]), "corrector": 0})
+        rng.shuffle(hist)
+        case = {"integrator": integ, "coordinates": coord, "G": G.hex(), "m0": m0.hex(), "m1": m1.hex(),
+                "p0": hexl([f0 * v for v in p]), "p1": hexl([f1 * v for v in p]), "dt": dt.hex(), "history": hist, "nsteps": 2,
+                "safe_mode": rng.choice([0, 1]) if integ in ("whfast", "saba") else 1,
+                "kernel": rng.choice(["default", "default", "lazy", "modifiedkick", "composition"]) if coord == "jacobi" else "default"}
+        if integ == "saba":
+            case["saba_type"] = rng.choice(SABA_TYPES)
+        hvf_cases.append(case)
+    hvf_out, err = run_driver(libdir, "hvf", hvf_cases, timeout=600)
+    if hvf_out is None:
+        ctx.violation("kepler:history_vs_fresh_%s" % ("nontermination" if err == "timeout" else "crash"), {"error": err}, False,
+                      "history-vs-fresh driver did not return (%s)" % err)
+        hvf_out = []
+    hvf_stats = {"compared": 0, "refused": 0}
+    for case, r in zip(hvf_cases, hvf_out):
+        if "error" in r:
+            hvf_stats["refused"] += 1
+            hvf_stats.setdefault("first_error", r["error"][:160])
+            continue
+        hvf_stats["compared"] += 1
+        ctx.evaluations += 1
+        tag = case["integrator"] + ("/" + case["coordinates"] if case["coordinates"] else "")
+        ctx.case(key=("hvf", tag, tuple(h["op"] + ":" + h.get("integrator", "") for h in case["history"])))
+        diff = None
+        for k_, (a_, b_) in enumerate(zip(r["A"], r["B"])):
+            fa = [float.fromhex(v) for row in a_["state"] for v in row]; fb = [float.fromhex(v) for row in b_["state"] for v in row]
+            ta = float.fromhex(a_["t"]); tb = float.fromhex(b_["t"])
+            if len(fa) != len(fb) or not all(vlib.same_bits(x_, y_) for x_, y_ in zip(fa, fb)):
+                worst_ = max((abs(x_ - y_) / max(abs(x_), abs(y_), 1e-300) for x_, y_ in zip(fa, fb) if x_ == x_ and y_ == y_), default=float("nan"))
+                diff = "after measured step %d the particle states differ (largest relative difference %.3g)" % (k_ + 1, worst_)
+                break
+            if not (abs(ta - tb) <= 2 * math.ulp(max(abs(ta), abs(tb), 1e-300))):
+                diff = "after measured step %d the times differ: %r vs %r" % (k_ + 1, ta, tb)
+                break
+        if diff:
+            violations.append(("kepler:history_vs_fresh:%s" % tag,
+                               {"how": "tools/c03_driver.py mode hvf: A = history then 2 steps; B = fresh simulation with A's particles, "
+                                       "t, G and settings, same 2 steps", "case": case, "A": r["A"], "B": r["B"],
+                                "meta": {"dt_over_P": 0.0}}, "%s: an object with a history does not continue like a fresh one: %s" % (tag, diff)))
+    ctx.extra["history_vs_fresh"] = hvf_stats
+
     ctx.extra["full_step_cases"] = per_integ
     if errors:
         ctx.extra["full_step_errors"] = errors
